@@ -36,18 +36,39 @@ def frozen_time():
         time.time = real
 
 
+_REAL = {("os", n): getattr(os, n) for n in ("rename", "replace", "remove", "unlink")}
+_REAL.update({("shutil", n): getattr(shutil, n) for n in ("copy", "copy2", "copyfile")})
+_REAL_OPEN = open
+TAPPED_MODULES = ("pysyncobj.atomic_replace", "pysyncobj.serializer")
+
+
 class Interceptor(object):
-    """Stands in for `open` / `atomicReplace` inside pysyncobj.serializer."""
+    """Taps the file-system PRIMITIVES while a serializer operation runs: `os.rename/replace/remove/unlink`,
+    `shutil.copy/copy2/copyfile` (globally, and every name in `pysyncobj.atomic_replace` / `pysyncobj.serializer`
+    that was bound to one of them at import time — on the pinned tree `atomicReplace` IS `os.rename`), and
+    `open(.., 'w'/'a')` as looked up by these two modules.  `atomicReplace` itself is NOT a primitive here: whatever
+    it does is seen operation by operation.  A kill point lies before every primitive (and in the middle of a copy);
+    the only atomicity assumed is that of one `os.rename` / `os.replace` call."""
 
     def __init__(self, sermod, fn, kill_at=None, hard_exit=False):
+        import sys
         self.sermod = sermod
+        self.mods = [sys.modules[m] for m in TAPPED_MODULES if m in sys.modules]
         self.fn = fn
+        self.dir = os.path.dirname(fn)
         self.names = {fn: "dump", fn + ".tmp": "tmp", fn + ".1.tmp": "tmp1"}
         self.ops = []             # recorded primitive operations (also the ones after the kill)
         self.kill_at = kill_at
         self.hard_exit = hard_exit
         self.dead = False
-        self.saved = None
+        self.saved = []
+
+    def name(self, path):
+        path = os.fspath(path) if not isinstance(path, (str, bytes)) else path
+        return self.names.get(path, os.path.basename(path) if isinstance(path, str) else repr(path))
+
+    def ours(self, *paths):
+        return any(isinstance(p, str) and os.path.dirname(os.path.abspath(p)) == self.dir for p in paths)
 
     def _gate(self, op):
         """Returns True when the operation is to be performed."""
@@ -58,20 +79,59 @@ class Interceptor(object):
         self.ops.append(op)
         return not self.dead
 
+    # -- primitives ------------------------------------------------------------------------------
+    def _rename(self, kind):
+        real = _REAL[("os", kind)]
+
+        def f(src, dst, *a, **kw):
+            if not self.ours(src, dst):
+                return real(src, dst, *a, **kw)
+            if self._gate("rename %s %s" % (self.name(src), self.name(dst))):
+                real(src, dst, *a, **kw)
+        return f
+
+    def _remove(self, kind):
+        real = _REAL[("os", kind)]
+
+        def f(path, *a, **kw):
+            if not self.ours(path):
+                return real(path, *a, **kw)
+            if self._gate("remove %s" % self.name(path)):
+                real(path, *a, **kw)
+        return f
+
+    def _copy(self, kind):
+        real = _REAL[("shutil", kind)]
+
+        def f(src, dst, *a, **kw):
+            if not self.ours(src, dst) or os.path.isdir(dst):
+                return real(src, dst, *a, **kw)
+            data = sc.read_file(src) or b""
+            half = len(data) // 2
+            if self._gate("copy-begin %s %s" % (self.name(src), self.name(dst))):
+                with _REAL_OPEN(dst, "wb", buffering=0) as g:     # a copy is tearable: first half ...
+                    g.write(data[:half])
+            if self._gate("copy-end %s %s" % (self.name(src), self.name(dst))):
+                with _REAL_OPEN(dst, "ab", buffering=0) as g:     # ... second half
+                    g.write(data[half:])
+            return dst
+        return f
+
     def open(self, path, mode="r", *a, **kw):
-        if "w" not in mode:
-            return open(path, mode, *a, **kw)
-        name = self.names.get(path, path)
+        if ("w" not in mode and "a" not in mode and "x" not in mode and "+" not in mode) or not self.ours(path):
+            return _REAL_OPEN(path, mode, *a, **kw)
+        name = self.name(path)
         ic = self
+        append = "a" in mode
 
         class W(object):
             def __init__(self):
                 self.f = None
-                if ic._gate("openW %s" % name):
-                    self.f = open(path, "wb", buffering=0)
+                if ic._gate("%s %s" % ("openA" if append else "openW", name)):
+                    self.f = _REAL_OPEN(path, "ab" if append else "wb", buffering=0)
 
             def write(self, b):
-                b = bytes(b)
+                b = b.encode() if isinstance(b, str) else bytes(b)
                 if ic._gate("write %s %s" % (name, sc.hx(b))) and self.f is not None:
                     self.f.write(b)
                 return len(b)
@@ -93,23 +153,36 @@ class Interceptor(object):
                 return False
         return W()
 
-    def atomic_replace(self, src, dst):
-        if self._gate("rename %s %s" % (self.names.get(src, src), self.names.get(dst, dst))):
-            os.rename(src, dst)
+    # -- installation ----------------------------------------------------------------------------
+    def _set(self, obj, attr, val):
+        d = obj.__dict__
+        self.saved.append((obj, attr, d[attr] if attr in d else _MISSING))
+        setattr(obj, attr, val)
 
     def __enter__(self):
-        self.saved = (self.sermod.__dict__.get("open"), self.sermod.atomicReplace)
-        self.sermod.open = self.open
-        self.sermod.atomicReplace = self.atomic_replace
+        wrappers = {}
+        for (mod, n), real in _REAL.items():
+            w = self._rename(n) if n in ("rename", "replace") else self._remove(n) if n in ("remove", "unlink") else self._copy(n)
+            wrappers[id(real)] = w
+            self._set(os if mod == "os" else shutil, n, w)
+        for m in self.mods:
+            for k, v in list(m.__dict__.items()):
+                if id(v) in wrappers and any(v is r for r in _REAL.values()):
+                    self._set(m, k, wrappers[id(v)])       # e.g. serializer.atomicReplace = os.rename
+            self._set(m, "open", self.open)
         return self
 
     def __exit__(self, *exc):
-        if self.saved[0] is None:
-            del self.sermod.open
-        else:
-            self.sermod.open = self.saved[0]
-        self.sermod.atomicReplace = self.saved[1]
+        for obj, attr, val in reversed(self.saved):
+            if val is _MISSING:
+                delattr(obj, attr)
+            else:
+                setattr(obj, attr, val)
+        self.saved = []
         return False
+
+
+_MISSING = object()
 
 
 def user_serializer(ic, fail_after=None):
@@ -268,9 +341,26 @@ def model_case(sc_, fs0, ops_real):
             "chunks": [sc.chunk_repr(c) for c in sc_.chunks]}
 
 
+def judge(sc_, cls, k, ops_full):
+    """Property text on one crash image: the dump is a complete old or new snapshot — never torn, and never
+    missing when one existed before the operation."""
+    at = "after a kill before primitive operation %d of %d (%s done last) of %s (%s)" % (
+        k + 1, len(ops_full), (ops_full[k - 1][:40] if k else "nothing"), sc_.what, sc_.name)
+    if cls.startswith("torn"):
+        return {"signature": "serializer.dump:torn-at-crash-point:" + sc_.what,
+                "what": "%s a fresh Serializer finds a dump file that is neither the old nor the new snapshot (%s)" % (at, cls),
+                "replay": {"component": "corr.storage_dump", "scenario": sc_.key(), "crash_after": k}}
+    if cls == "absent" and sc_.old:
+        return {"signature": "serializer.dump:missing-at-crash-point:" + sc_.what,
+                "what": "%s there is NO dump file although a complete snapshot was on disk before the operation "
+                        "(operations: %s)" % (at, [o[:24] for o in ops_full if not o.startswith("write")]),
+                "replay": {"component": "corr.storage_dump", "scenario": sc_.key(), "crash_after": k}}
+    return None
+
+
 def run_scenario(ctx, sermod, sc_, base):
     """Returns (cases, disagreements, violations, coverage-dict)."""
-    cov = {"ops": 0, "classes": {}}
+    cov = {"ops": 0, "classes": {}, "prims": {}}
     dis, viols = [], []
     d0 = os.path.join(base, "full")
     os.makedirs(d0)
@@ -285,6 +375,14 @@ def run_scenario(ctx, sermod, sc_, base):
         sc_.chunks = ref.chunks
     new_img = images(fn)["dump"]
     shutil.rmtree(d0)
+    for o in ops_full:
+        kind = o.split(" ")[0]
+        if kind == "rename":
+            kind = {"rename tmp dump": "rename tmp->dump over existing dump" if sc_.old else "rename tmp->dump creating first dump",
+                    "rename tmp1 dump": "rename incoming tmp1->dump"}.get(o, "rename other: " + o)
+        elif kind in ("openW", "openA", "close", "remove", "copy-begin", "copy-end"):
+            kind = o
+        cov["prims"][kind] = cov["prims"].get(kind, 0) + 1
     mc = model_case(sc_, fs0, ops_full)
     mout = json.loads(ctx.driver("serializer", [json.dumps(mc)])[0])
     ops_agree = mout.get("ops") == ops_full
@@ -307,13 +405,10 @@ def run_scenario(ctx, sermod, sc_, base):
         cases += 1
         cov["ops"] += 1
         cov["classes"][cls.split(":")[0]] = cov["classes"].get(cls.split(":")[0], 0) + 1
+        v = judge(sc_, cls, k, ops_full)
+        if v and len(viols) < 2:
+            viols.append(v)
         if not ops_agree:
-            if cls.startswith("torn") and len(viols) < 2:
-                viols.append({"signature": "serializer.dump:torn-at-crash-point:" + sc_.what,
-                              "what": "after a kill following primitive operation %d (%s) of %s (%s) a fresh Serializer finds a dump "
-                                      "file that is neither the old nor the new snapshot (%s)"
-                                      % (k, (ops_full[k - 1][:40] if k else "none"), sc_.what, sc_.name, cls),
-                              "replay": {"component": "corr.storage_dump", "scenario": sc_.key(), "crash_after": k}})
             continue
         mimg = mout["images"][k]
         mcls = "absent" if mimg["dump"] is None else ("old" if mimg["dump"] == fs0["dump"] else
@@ -324,13 +419,6 @@ def run_scenario(ctx, sermod, sc_, base):
                             "model": {"image": {a: (b and len(b) // 2) for a, b in mimg.items()}, "class": mcls},
                             "impl": {"image": {a: (b and len(b) // 2) for a, b in img.items()}, "class": cls},
                             "note": "file images after a kill differ"})
-        if cls.startswith("torn"):
-            if len(viols) < 2:
-                viols.append({"signature": "serializer.dump:torn-at-crash-point:" + sc_.what,
-                              "what": "after a kill following primitive operation %d (%s) of %s (%s) a fresh Serializer finds a dump "
-                                      "file that is neither the old nor the new snapshot (%s)"
-                                      % (k, (ops_full[k - 1][:40] if k else "none"), sc_.what, sc_.name, cls),
-                              "replay": {"component": "corr.storage_dump", "scenario": sc_.key(), "crash_after": k}})
         if k == len(ops_full):
             if rets_k != (rets_full if not sc_.fork else rets_k) or (not sc_.fork and mout["rets"] != rets_k):
                 dis.append({"input": {"scenario": sc_.key()}, "model": mout["rets"], "impl": rets_k,
@@ -349,7 +437,7 @@ def run(ctx):
     sermod = sc.load(ctx.repo)
     cases, seen = 0, set()
     dis, viols = [], []
-    cov = {"scenarios": {}, "crash_points": 0, "classes": {}}
+    cov = {"scenarios": {}, "crash_points": 0, "classes": {}, "primitives": {}}
     samples = []
     for sc_ in scenarios(ctx.tier):
         base = ctx.tmpdir()
@@ -362,13 +450,20 @@ def run(ctx):
         cov["crash_points"] += c["ops"]
         for k, x in c["classes"].items():
             cov["classes"][k] = cov["classes"].get(k, 0) + x
+        for k, x in c["prims"].items():
+            cov["primitives"][k] = cov["primitives"].get(k, 0) + x
         if len(samples) < 2:
             samples.append({"scenario": sc_.key(), "crash_points": n, "classes": c["classes"]})
     res = {"cases": cases, "distinct": cases, "coverage": cov, "samples": samples, "disagreements": dis[:3],
            "violations": viols[:3], "wall_s": round(time.time() - t0, 2)}
+    import ctypes
     missing = [k for k in ("absent", "old", "new") if not cov["classes"].get(k)]
+    missing += [k for k in ("rename tmp->dump over existing dump", "rename tmp->dump creating first dump",
+                            "rename incoming tmp1->dump", "openW tmp", "openW tmp1", "write") if not cov["primitives"].get(k)]
+    if hasattr(ctypes, "windll"):
+        missing.append("POSIX branch of atomic_replace (this host runs the Windows branch)")
     if missing and not dis and not viols:
-        res["inconclusive"] = "coverage floor missed: crash classes " + ", ".join(missing)
+        res["inconclusive"] = "coverage floor missed: " + ", ".join(missing)
     return res
 
 
